@@ -276,7 +276,7 @@ func (c *EWCase) Run() string {
 					v = undef
 				}
 			}
-			masked := (c.A.Mask != nil && c.A.Mask[k]) || (c.B != nil && c.B.Mask != nil && c.B.Mask[k])
+			masked := (c.A.Mask != nil && c.A.Mask[k]) || (c.B != nil && c.B.Mask != nil && c.B.Mask[k]) || (c.Dst != nil && c.Dst.Mask != nil && c.Dst.Mask[k])
 			if isUndef(v) && !masked {
 				hasUndef = true // (a zero divisor hidden under the mask is not operated on: no error is due for it)
 			}
